@@ -168,6 +168,33 @@ CLAIMS = {
        "maps with a key sequence; run ids opaque; times mathematical integers.",
   technique="contract-based deductive verification (dict-as-finite-map model, quantified loop invariants over keys, ghost index map) + bounded stand-in on the real Context",
   design_ref="DESIGN.md section 6 (C14) and 10"),
+ "C02": dict(
+  category="proof",
+  text="Contract-based deductive proof over the real source of what enters a storage key and when cached state may be reused: "
+       "Context.__add_lineage_to_plugin files, under the plugin's last provided type, (class name, version, exactly the TRACKED options "
+       "with their configured values) and merges the lineage of every dependency, so a tracked option / version / class change reaches "
+       "the key of the type and of all its descendants and an untracked option never enters a key; StorageFrontend._matches is exact "
+       "without fuzzy settings and compares the lineages with the fuzzy parts removed otherwise; Context._plugins_are_cached allows "
+       "reuse only under the current context hash; Context.register drops the plugin cache whenever it changes the class registry "
+       "(this obligation failed on the pinned tree: defect F5 - stale reads after re-registration - fixed); nothing is saved while fuzzy "
+       "matching is on. The end-to-end clause (get_array equals a brand-new context on empty storage after any operation sequence), "
+       "key sensitivity, exactness of fuzzy acceptance and hash stability across insertion orders / hash seeds are bounded stand-ins.",
+  note="Not proved: deterministic_hash / hashablize, _filter_lineage, key_for / get_data_key, DataDirectory's directory lookup, child "
+       "plugins' lineage, option validation (strax/config.py). Plugins, options and lineages are opaque values with uninterpreted "
+       "contains / getitem; the filtering dict comprehension is a trusted library model.",
+  technique="contract-based deductive verification (obligations at the lineage store via hooks, ghost flags for registry / cache writes) + bounded stand-ins on the real Context",
+  design_ref="DESIGN.md section 6 (C02) and 10"),
+ "C15": dict(
+  category="exploration",
+  text="BOUNDED (no obligation of this property is discharged deductively yet): the real strax.multi_run with real threads, worker "
+       "calls released one at a time in every enumerated completion order, returns one result per successful run in run-id order with "
+       "the run id attached, executes every run exactly once, raises a failing run's exception or omits it under ignore_errors; the real "
+       "Context returns, for a list of runs with 1..8 workers, the rows of sequential single-run calls.",
+  note="multi_run's scheduling loop (futures dict, wait, islice window) is not yet under contract. Thread-safety of the shared Context "
+       "under line-level interleavings of its plugin-resolution code is a concurrency property this technique family does not decide; the "
+       "context-level stand-in runs under the OS scheduler only.",
+  technique="bounded stand-in on the real code (controlled completion orders); contract-based proof of multi_run not available",
+  design_ref="DESIGN.md section 6 (C15) and 10"),
 }
 
 NA_REASON = "check not built yet (see DESIGN.md section 6 for the plan)"
